@@ -273,7 +273,19 @@ func (p *sp) postfix() Val {
 			if a.Len == "" && a.Ref == "" {
 				panic(specErr{"spec: indexing a non-sequence in " + p.src})
 			}
+			var elTy types.Type
+			if a.Ty != nil {
+				if sl, ok := a.Ty.Underlying().(*types.Slice); ok {
+					elTy = sl.Elem()
+				}
+			}
+			wasOld := a.Heap
 			a = intV(fmt.Sprintf("(select %s (+ %s %s))", p.g.arr(p.st, a), a.Off, i.T))
+			if elTy != nil {
+				if _, isPtr := elTy.Underlying().(*types.Pointer); isPtr { // element of a slice of pointers
+					a = Val{T: a.T, Kind: "opaque", Ty: elTy, Heap: wasOld}
+				}
+			}
 		}
 	}
 	return a
